@@ -22,11 +22,16 @@ Theorems hold for every number of processes and every schedule:
 -/
 import Cacache.Lemmas.Interleave
 import Cacache.Props.C05
+import Cacache.Lemmas.CodecLaws
 
 namespace Cacache.C07
 open Prog
 
-variable (cfg : Cfg) (env : Env) (cache : Path)
+variable (cfg : Cfg) (env : Env) (cache : Path) (W : Rec → Prop)
+
+/-- The options' own time stamp is a `u128`, and every record built from them is in `W`. -/
+def OptsOk (key : Bytes) (o : WriteOpts) : Prop :=
+  (∀ t, o.time = some t → t ≤ timeMax) ∧ ∀ tm, tm ≤ timeMax → W (mkRec key o tm)
 
 /-- A bucket path of this cache (any key's). -/
 def IsBucket (q : Path) : Prop := InArea cache dIndex q ∧ q.length = cache.length + 4
@@ -36,15 +41,21 @@ theorem bucket_isBucket (key : Bytes) : IsBucket cache (bucketPath cfg cache key
 
 /-- An index insertion, seen from any bucket `q` of the cache: each of its calls is off `q`, or
 opens `q` for appending, or appends one whole framed record to `q`. -/
-theorem insert_wholeRecords (key : Bytes) (o : WriteOpts) (q : Path) (hq : IsBucket cache q) :
-    AllCalls (Call.wholeRecords (codec cfg) q) (insert cfg cache key o) := by
+theorem insert_wholeRecords (key : Bytes) (o : WriteOpts) (hW : OptsOk W key o) (q : Path)
+    (hq : IsBucket cache q) :
+    AllCalls (Call.wholeRecords (codec cfg) W q) (insert cfg cache key o) := by
   unfold insert getTime appendRec
   by_cases hsame : bucketPath cfg cache key = q
   · subst hsame
     repeat' ac_step
     all_goals first
       | exact Or.inr (Or.inl rfl)
-      | exact Or.inr (Or.inr ⟨_, rfl⟩)
+      | (refine Or.inr (Or.inr ⟨_, ?_, rfl⟩)
+         apply hW.2
+         first
+           | exact Nat.zero_le _
+           | exact hW.1 _ (by assumption)
+           | exact now_answer (by assumption))
       | (left; intro fs ht; simp only [Call.touches] at ht; done)
       | (left; intro fs ht; simp only [Call.touches] at ht
          exact bucket_not_prefix_parent cfg cache key ht)
@@ -61,11 +72,11 @@ theorem insert_wholeRecords (key : Bytes) (o : WriteOpts) (q : Path) (hq : IsBuc
 /-- Programs whose calls all aim at other areas than the index are trivially "whole-record". -/
 theorem wholeRecords_of_areas {α : Type} {Ok : α → Prop} {p : Prog α} {tops : List Bytes}
     (h : AllCallsR (Call.inAreas cache tops) Ok p) (hn : dIndex ∉ tops) (q : Path)
-    (hq : IsBucket cache q) : AllCalls (Call.wholeRecords (codec cfg) q) p :=
+    (hq : IsBucket cache q) : AllCalls (Call.wholeRecords (codec cfg) W q) p :=
   h.mono (fun c hc => Or.inl (hc.avoids hq.1 hn)) (fun _ _ => trivial)
 
 theorem wholeRecords_of_readOnly {α : Type} {p : Prog α} (h : AllCalls ReadOnly p) (q : Path) :
-    AllCalls (Call.wholeRecords (codec cfg) q) p :=
+    AllCalls (Call.wholeRecords (codec cfg) W q) p :=
   h.mono (fun c hc => Or.inl (fun fs ht => by
     cases c <;> simp [ReadOnly, Call.mutating] at hc <;> simp [Call.touches] at ht)) (fun _ h => h)
 
@@ -74,24 +85,25 @@ processes, each running a program all of whose calls are whole-record for bucket
 insertions and removals of any keys, lookups, listings, reads, writer phases …): after any
 interleaving, `q` holds its initial bytes followed by whole framed records. -/
 theorem conc_no_splice {α : Type} (q : Path) (b0 : Bytes) (ps : List (Prog α))
-    (hp : ∀ p ∈ ps, AllCalls (Call.wholeRecords (codec cfg) q) p) (fs : FS)
+    (hp : ∀ p ∈ ps, AllCalls (Call.wholeRecords (codec cfg) W q) p) (fs : FS)
     (h0 : BucketIs fs q b0) (sched : List Nat) :
-    ∃ rs, BucketIs (interleave env ps fs sched).2 q ((codec cfg).appendAll b0 rs) :=
-  (interleave_invariant env (Call.wholeRecords (codec cfg) q) (WholeRecords (codec cfg) q b0)
-    (fun c fs hc hi => wholeRecords_step (codec cfg) env q b0 c fs hc hi) ps hp fs
-    ⟨[], by simpa [Codec.appendAll] using h0⟩ sched).1
+    ∃ rs, (∀ r ∈ rs, W r) ∧
+      BucketIs (interleave env ps fs sched).2 q ((codec cfg).appendAll b0 rs) :=
+  (interleave_invariant env (Call.wholeRecords (codec cfg) W q) (WholeRecords (codec cfg) W q b0)
+    (fun c fs hc hi => wholeRecords_step (codec cfg) W env q b0 c fs hc hi) ps hp fs
+    ⟨[], by simp, by simpa [Codec.appendAll] using h0⟩ sched).1
 
 /-- … so a reader at any moment decodes the initial records followed by exactly the appended
 ones, in append order (no partial index record is ever observable). -/
-theorem conc_reads_whole_records (L : (codec cfg).Laws) {α : Type} (q : Path) (b0 : Bytes)
-    (ps : List (Prog α)) (hp : ∀ p ∈ ps, AllCalls (Call.wholeRecords (codec cfg) q) p) (fs : FS)
+theorem conc_reads_whole_records (L : (codec cfg).Laws W) {α : Type} (q : Path) (b0 : Bytes)
+    (ps : List (Prog α)) (hp : ∀ p ∈ ps, AllCalls (Call.wholeRecords (codec cfg) W q) p) (fs : FS)
     (h0 : BucketIs fs q b0) (hs : (codec cfg).Settled b0) (sched : List Nat) :
     ∃ rs bytes, BucketIs (interleave env ps fs sched).2 q bytes ∧
       (codec cfg).entries bytes = (codec cfg).entries b0 ++ rs := by
-  obtain ⟨rs, hb⟩ := conc_no_splice cfg env q b0 ps hp fs h0 sched
+  obtain ⟨rs, hWs, hb⟩ := conc_no_splice cfg env W q b0 ps hp fs h0 sched
   refine ⟨rs, _, hb, ?_⟩
-  have := L.settled_appendAll b0 rs hs
-  rw [this, L.entriesT_appendAll, ← hs]
+  have := L.settled_appendAll b0 rs hWs hs
+  rw [this, L.entriesT_appendAll _ _ hWs, ← hs]
 
 /-- Non-publishing calls keep the content store valid; so any interleaving of programs made of
 them does. -/
@@ -129,11 +141,41 @@ theorem conc_confined {α : Type} (ps : List (Prog α))
 
 /-- Non-vacuity: two concurrent insertions into the same bucket and a lookup satisfy the
 hypotheses of `conc_no_splice`. -/
-example (k1 k2 : Bytes) (o1 o2 : WriteOpts) (q : Path) (hq : IsBucket cache q) :
+example (k1 k2 : Bytes) (o1 o2 : WriteOpts) (h1 : OptsOk W k1 o1) (h2 : OptsOk W k2 o2) (q : Path)
+    (hq : IsBucket cache q) :
     ∀ p ∈ [insert cfg cache k1 o1, insert cfg cache k2 o2],
-      AllCalls (Call.wholeRecords (codec cfg) q) p := by
+      AllCalls (Call.wholeRecords (codec cfg) W q) p := by
   intro p hp
   simp only [List.mem_cons, List.not_mem_nil, or_false] at hp
-  rcases hp with rfl | rfl <;> exact insert_wholeRecords cfg cache _ _ q hq
+  rcases hp with rfl | rfl
+  · exact insert_wholeRecords cfg cache W _ _ h1 q hq
+  · exact insert_wholeRecords cfg cache W _ _ h2 q hq
+
+/-! ### the concrete codec -/
+
+/-- Well-formed options give `OptsOk` for `Rec.WF`. -/
+theorem optsOk_of_wf (key : Bytes) (o : WriteOpts) (h : OptsWF key o) : OptsOk Rec.WF key o :=
+  ⟨h.time, fun tm htm => mkRec_wf key o tm h htm⟩
+
+/-- **Concurrent index operations on cacache's own record format**: any number of processes
+inserting / removing (well-formed options) any keys, under every schedule — a reader of bucket `q`
+decodes at any moment the initial records followed by exactly the appended ones.  No hypothesis
+about the record codec or the hash function is left. -/
+theorem conc_reads_whole_records_cacache {α : Type} (q : Path) (b0 : Bytes) (ps : List (Prog α))
+    (hp : ∀ p ∈ ps, AllCalls (Call.wholeRecords (codec cfg) Rec.WF q) p) (fs : FS)
+    (h0 : BucketIs fs q b0) (hs : (codec cfg).Settled b0) (sched : List Nat) :
+    ∃ rs bytes, BucketIs (interleave env ps fs sched).2 q bytes ∧
+      (codec cfg).entries bytes = (codec cfg).entries b0 ++ rs :=
+  conc_reads_whole_records cfg env Rec.WF (codec_laws cfg) q b0 ps hp fs h0 hs sched
+
+example (k1 k2 : Bytes) (o1 o2 : WriteOpts) (h1 : OptsWF k1 o1) (h2 : OptsWF k2 o2) (q : Path)
+    (hq : IsBucket cache q) :
+    ∀ p ∈ [insert cfg cache k1 o1, insert cfg cache k2 o2],
+      AllCalls (Call.wholeRecords (codec cfg) Rec.WF q) p := by
+  intro p hp
+  simp only [List.mem_cons, List.not_mem_nil, or_false] at hp
+  rcases hp with rfl | rfl
+  · exact insert_wholeRecords cfg cache Rec.WF _ _ (optsOk_of_wf _ _ h1) q hq
+  · exact insert_wholeRecords cfg cache Rec.WF _ _ (optsOk_of_wf _ _ h2) q hq
 
 end Cacache.C07
